@@ -240,7 +240,7 @@ class C22(Prop):
     assumptions = ["continuous distributions are outside the statement",
                    "printed probability is judged when every probabilistic clause is a fact/AD fact (all choices made)"]
     families = {"quick": [("FDUP", 4), ("FLEX", 10), ("F2.2", 16), ("F1.2q", 64), ("F2.3", 192), ("F1.1", 4)],
-                "thorough": [("F1.2q", 64), ("FDUP", 4), ("FLEX", 10), ("F2.3", 192), ("F1.2", 128), ("F2.4", 256), ("F1.3s", 48), ("F2.2", 16), ("F1.1", 4)]}
+                "thorough": [("F1.2q", 64), ("FDUP", 4), ("FLEX", 10), ("F2.3", 192), ("F1.2/8", 64), ("F2.4/8", 64), ("F1.3s", 48), ("F2.2", 16), ("F1.1", 4)]}
     budget = {"quick": 300, "thorough": 2400}
 
     def shards(self, tier):
